@@ -298,13 +298,18 @@ func init() {
 	// ------------------------------------------------------------ C11
 	registerSteered(steeredProfile{
 		prop: "C11", quick: 480, thorough: 9600,
-		rule: "steered programs over child names {A,B,C} x nested {X,Y}: creation by empty child batch, child-only batches, writes, DelChildCollection, recreation in a later batch, delete-only batches, nested children, under every placement of merger/persister/compaction/reopen and all compaction concerns; after every step the whole tree seen through ChildCollectionNames/ChildCollectionSnapshot (collection level; store level after each round; after reopen) is compared with the model tree. distinct_nontrivial = distinct (config class|shape|park) triples visited while children existed plus round kinds.",
+		rule: "steered programs over child names {A,B,C} x nested {X,Y}: creation by empty child batch, child-only batches, writes, DelChildCollection, recreation in a later batch (a third of the programs with a merge operator: recreation with Merge operands on the predecessor's keys while its data is still in the dirty sections), delete-only batches, nested children, under every placement of merger/persister/compaction/reopen and all compaction concerns; after every step the whole tree seen through ChildCollectionNames/ChildCollectionSnapshot (collection level; store level after each round; after reopen) is compared with the model tree. distinct_nontrivial = distinct (config class|shape|park) triples visited while children existed plus round kinds.",
 		oracles: eng.Oracles{Content: true, Reopen: true, Store: true},
 		gen: func(r *eng.Rng, idx int, th bool) *eng.Program {
 			cfg := eng.GenConfig(r, pickBacking(r, "none", "store", "store", "store"), false)
-			gp := eng.GenParams{MinBatches: 4, MaxBatches: 16, NKeys: 4 + r.Intn(5), Park: r.Chance(1, 2), Reopen: true,
+			// Merge operands only where no partial compaction can run: what
+			// MB-29664 (known finding KF-05 of C08) does to them is C08's
+			// business, C11 is about the tree of collections
+			merge := r.Chance(1, 2) && !(cfg.Backing == "store" && cfg.Concern == 1)
+			cfg.MergeOp = merge
+			gp := eng.GenParams{MinBatches: 4, MaxBatches: 16, NKeys: 4 + r.Intn(5), Park: r.Chance(1, 2), Reopen: true, Merge: merge,
 				Children: true, Nested: r.Chance(1, 2), ChildOnlyPct: 25, DelOnlyPct: 12, Idle: true, FinalReopen: r.Chance(1, 2), QuietPct: 25}
-			if idx%4 == 1 {
+			if idx%4 == 1 && !merge {
 				eng.PartialCompactionProfile(r, &cfg, &gp)
 			}
 			return eng.GenProgram(r, "C11", cfg, gp)
